@@ -228,6 +228,9 @@ class EventHandler(abc.ABC):
         self.end_element(split_qname(qname), qname)
 
         if self.tail:
+            if len(self.ns_context) == 1:
+                raise XmlWriterError("The root element can't have tail content.")
+
             self.set_characters(self.tail)
 
         self.tail = None
